@@ -145,7 +145,7 @@ def _reports_all_handed_on(ctx):
     for b in F.all_bodies(bins=False):
         if b.crate != "undermoon" or b.is_mock() or "tests::" in b.path or not b.path.startswith("coordinator::"):
             continue
-        parses = [(bb, t) for bb, t in b.calls() if not t["dest"]["p"] and b.locals[t["dest"]["l"]]["ty"] == "std::option::Option<%s>" % META
+        parses = [(bb, t) for bb, t in b.calls() if not t["dest"]["p"] and (b.locals[t["dest"]["l"]]["ty"] == "std::option::Option<%s>" % META or b.locals[t["dest"]["l"]]["ty"].startswith("std::result::Result<%s," % META))
                   and (callee_of(t) or "") in F.bodies]
         pushes = [(bb, t) for bb, t in b.calls() if (callee_of(t) or "").endswith("Vec::push") and t.get("atys") and META in t["atys"][0]]
         if not parses or not pushes:
@@ -168,6 +168,11 @@ def _reports_all_handed_on(ctx):
                 for df in du.defs.get(pl_["l"], []) if pl_ else []:
                     if df[0] == "assign" and df[3]["rv"]["k"] == "discr" and df[3]["rv"]["p"]["l"] == res and not df[3]["rv"]["p"]["p"]:
                         own = True
+                if not own:
+                    # `?` on the parse result: the tested value is the ControlFlow made from it and from nothing else
+                    pc = callee_of(b.blocks[src[-1]].term)
+                    sl_ = du.slice_operand(discr)
+                    own = src[-1] in sl_.calls.get(pc, set()) and all(c == pc or c.endswith("::branch") for c in sl_.calls)
                 if not own:
                     extra.append(b.blocks[gd].term.get("line"))
             ctx.check(not extra, "C07.D4", "reports-all-handed-on:%s" % b.path.split("::")[-2 if b.path.endswith("}") else -1], site(b, pb),
